@@ -31,16 +31,21 @@ THOROUGH_N = 16000
 SHARD = 150
 RULE = ("struct shapes of 1-6 fields over bool/int8..int64/int/uint8..uint64/uint/float32/float64/string/Duration, "
         "pointers to scalars and structs, slices, string-keyed maps, nested and embedded (anonymous) structs, tags "
-        "optional/default=/options=/range=/string; documents 70% well-typed, else boundary numerics "
+        "optional/optional=dep/optional=!dep/default=/options=/range=/string; slices also as a string holding a JSON array "
+        "(null / nested / ill-typed elements); documents 70% well-typed, else boundary numerics "
         "(min-1,min,max,max+1,2^63,2^64-1,1e400,1.5,1e3,-0), every JSON kind at every position, null/missing/extra "
         "fields; each case is unmarshalled from JSON text, from YAML text when all numbers are in the common subset, "
         "and through conf.LoadFromJsonBytes with re-spelled keys when the keys are identifiers; 12% of the cases are "
         "'outside' shapes/documents (arbitrary pointer/slice/map nesting, JSON texts inside strings) checked for "
-        "panic-freedom only; a fixed directed set "
+        "panic-freedom only; 6% 'confnest' cases (lists of lists of structs, maps of lists of structs, lists of maps with "
+        "re-spelled keys at every struct level, loaded by conf as JSON and YAML); 8 cases + 4 corpus cases of the four "
+        "KNOWN_FINDINGS classes (classified in Coq by masked checkers Exec.spec_mask_*); a fixed directed set "
         "(D1/D9 reproductions, tag-option clauses) is part of every run; non-trivial = the document sets at least one "
         "field and is not the directed prefix only; distinct = distinct canonical case JSON")
 TRUSTED = ["encoding/json tokenisation with UseNumber, yaml.v2 scalar resolution, reflect (Set*, Overflow*, StructOf)",
            "strconv.ParseFloat / float32 range test: supplied per number token by the Python encoder (finfo oracle)",
+           "encoding/json decoding of a string's text (fillSliceFromString): the denoted value is attached to the string "
+           "token by the Python encoder (payload oracle, json.loads with tokens kept)",
            "struct-tag text -> options (parseSegments/parseOption): the generator renders tags from the model's fopts; "
            "option keywords are tied by Link.v"]
 ASSUMPTIONS = [
@@ -48,15 +53,20 @@ ASSUMPTIONS = [
     "floats are opaque: a float field keeps the number token; value comparison only for tokens that are their own "
     "shortest 'f' rendering; no default/options/range/string option on float fields",
     "out of model (generator stays inside; panic-freedom of these is checked by the 'outside' stream only): env=, inherit, "
-    "optional=dep, dotted keys, default= on slices, options=/range= on Duration and on container fields, "
+    "optional=dep on embedded fields or on members of an optional embedded struct, dotted keys, default= on slices, options=/range= on Duration and on container fields, "
     "TextUnmarshaler fields, arrays, non-string map keys, map[string]any, pointers to slices/maps, named scalar types",
-    "strings destined for slice/map fields are not JSON texts (fillSliceFromString/fillMapFromString hand the text to "
-    "encoding/json); strings for float elements are not numerals; Duration strings have no fraction",
+    "strings destined for MAP fields are not JSON texts (fillMapFromString hands the text to encoding/json; slices "
+    "given as JSON-array text ARE modelled); strings for float elements are not numerals; Duration strings have no fraction",
     "object keys are distinct; range bounds are integers of magnitude <= 2^53",
     "inside a partially filled optional embedded struct absent fields keep zero even when they declare a default "
     "(processAnonymousFieldOptional): generator declares no defaults there",
     "conf: empty arrays become nil slices (toCamelCaseInterface) and map keys are camel-cased too: conf variants use "
     "documents without empty arrays and with lower-case map keys",
+    "KNOWN FINDINGS (spec_ok strict, model faithful, classify() decided by Exec.spec_mask_*): options=/range= not "
+    "enforced on time.Duration without ,string, on slice elements, on map values, on default= values; these constructs "
+    "appear only in the dedicated 'known' stream and corpus/C05/known_*.json",
+    "observation: a slice given as JSON-array text treats elements differently from a direct array (null element, "
+    "pointer elements, struct elements and nested arrays are type mismatches there)",
     "c05_roundtrip (httpc.buildRequest -> httpx.Parse): correspondence only (12% of the cases: request structs with "
     "path/form/header/json parts sent through an httptest server); well-formedness: path/form/header strings non-empty "
     "(an optional form string may be empty), no '/' and no '.'/'..' in path values, header values trimmed, header names "
@@ -171,6 +181,19 @@ def gen_prim_opts(rng, k, in_opt_anon=False):
         o["range"] = (l, rng.random() < 0.6, r, rng.random() < 0.6)
     if rng.random() < 0.15:
         o["string"] = True
+    # a default outside its own options=/range= is a known finding (options_range_unenforced_default): not here
+    if o["default"] is not None:
+        if o["options"] and o["default"] not in o["options"]:
+            o["default"] = rng.choice(o["options"])
+        if o["range"] is not None and k in INT_KINDS:
+            try:
+                z = int(o["default"])
+                l, li, r, ri = o["range"]
+                inside = (l is None or (z >= l if li else z > l)) and (r is None or (z <= r if ri else z < r))
+            except ValueError:
+                inside = True          # unparsable default: an error anyway
+            if not inside:
+                o["default"] = None
     return o
 
 
